@@ -231,7 +231,7 @@ func (s *Server) RoundTrip(req *http.Request) (*http.Response, error) {
 				if isBlobGet && req.Header.Get("Range") != "" {
 					menu = append(menu, k)
 				}
-			case "badjson", "manifest-empty-digest", "manifest-short-digest", "manifest-nohex-digest", "manifest-null-layer", "manifest-negative-size", "manifest-dup-layer":
+			case "badjson", "manifest-empty-digest", "manifest-short-digest", "manifest-nohex-digest", "manifest-null-layer", "manifest-negative-size", "manifest-dup-layer", "manifest-wrong-size":
 				if strings.Contains(path, "/manifests/") && req.Method == "GET" {
 					menu = append(menu, k)
 				}
@@ -293,7 +293,7 @@ func (s *Server) RoundTrip(req *http.Request) (*http.Response, error) {
 			b.data = []byte(`{"layers": [`)
 			res.Header.Set("Content-Length", strconv.Itoa(len(b.data)))
 			res.ContentLength = int64(len(b.data))
-		case "manifest-empty-digest", "manifest-short-digest", "manifest-nohex-digest", "manifest-null-layer", "manifest-negative-size", "manifest-dup-layer":
+		case "manifest-empty-digest", "manifest-short-digest", "manifest-nohex-digest", "manifest-null-layer", "manifest-negative-size", "manifest-dup-layer", "manifest-wrong-size":
 			// well-formed JSON whose content is malformed: the first layer entry is altered
 			var m map[string]any
 			if json.Unmarshal(b.data, &m) == nil {
@@ -310,6 +310,10 @@ func (s *Server) RoundTrip(req *http.Request) (*http.Response, error) {
 							layers[0] = nil
 						case "manifest-negative-size":
 							l0["size"] = -1
+						case "manifest-wrong-size":
+							if n, ok := l0["size"].(float64); ok {
+								l0["size"] = n + 1
+							}
 						case "manifest-dup-layer":
 							m["layers"] = append(layers, l0)
 						}
